@@ -312,7 +312,14 @@ def rule_cursors(ctx, db):
         if not co:
             ctx.missing("R5", "BufWriter::" + m)
             continue
-        ok = any(_arg_depends_on_call(f, t, 1, r"buf_len$") for f in fam for bb, t in calls(f, r"IoBufExt::slice$"))
+        # the copy may live in a private helper of the module (one level)
+        helpers = []
+        for f in fam:
+            for bb, t in f.calls():
+                for g in db.callee_fns(t, expand_traits=False):
+                    if g.id.startswith("compio_io::write::buf::") and g not in fam and g not in helpers:
+                        helpers.append(db.body_of(g))
+        ok = any(_arg_depends_on_call(f, t, 1, r"buf_len$") for f in fam + helpers for bb, t in calls(f, r"IoBufExt::slice$"))
         ctx.ob("R5", "bufwriter-appends-at-buf_len:" + m, ok, "new bytes are copied behind the bytes already buffered", co[0])
         f = co[0]
         fl = [bb for bb, _ in calls(f, r"BufWriter::<W>::flush_if_needed$")]
